@@ -195,10 +195,27 @@ class C11(Prop):
                                {"kind": "random-" + kind}))
         # interleave (the runner shrinks only the first few hundred failures)
         rng.shuffle(out)
-        return out
+        return out + self.lock_cases(tier, seed)
 
     # --------------------------------------------------------------- oracle
+    def lock_cases(self, tier, seed):
+        """share_threads at lock level (C10's suite `locks`, roots `share …`): the lock program of every operation,
+        recorded through hook H2, against the footprint model; the oracle checks that a broadcast of the inner
+        subject is ONE critical section ("every subscriber present at an emission receives it" under concurrency)."""
+        out = []
+        # (straight from the generator, not through C10's plugin: that one draws share cases from this one)
+        from .. import locksgen as lkg
+        for c in lkg.cases(tier, seed):
+            r = c.field("root") if c.suite == "locks" else None
+            if r and isinstance(r[0], list) and r[0] and r[0][0] == "share":
+                c.meta = dict(c.meta, kind="locks-share")
+                out.append(c)
+        return out
+
     def oracle(self, case, lines, model_lines=None):
+        if case.suite == "locks":
+            from .c06 import PROP as c06
+            return c06.lock_oracle(case, lines)
         kind = case.field("kind")[0]
         ref = Ref(kind, case.field("src")[0])
         for k, ev in enumerate(case.events):
@@ -242,12 +259,19 @@ class C11(Prop):
         return None
 
     def nontrivial(self, case, lines):
+        if case.suite == "locks":
+            return any(b.startswith("t=") and len(b) > 2 for b in lines.values())
         return any(b.startswith("d=") and not b.startswith("d= ") for b in lines.values())
 
     def signature(self, case, failure):
+        if case.suite == "locks":
+            return f"{failure['kind']}|locks-share"
         return f"{failure['kind']}|share|{case.field('kind')[0]}|{case.field('src')[0][0]}"
 
     def shrink_candidates(self, case):
+        if case.suite == "locks":
+            from .c10 import PROP as c10
+            return c10.shrink_candidates(case)   # (import at call time only)
         cands = []
         if case.flavor != "local":
             c = case.copy()
@@ -267,6 +291,9 @@ class C11(Prop):
     def extra_coverage(self, cases, impl):
         kinds = {}
         for c in cases:
+            if c.suite == "locks":
+                kinds["locks-share"] = kinds.get("locks-share", 0) + 1
+                continue
             k = f"{c.field('kind')[0]}/{c.field('src')[0][0]}/{c.flavor}"
             kinds[k] = kinds.get(k, 0) + 1
         return {"kind_counts": kinds, "model": MODEL}
